@@ -114,6 +114,18 @@ inline void finish() {
   fflush(stdout);
 }
 
+// ---------- crash context: which case was running when a sanitizer report / signal ended the process ----------
+inline char* case_buf() { static char b[4096]; return b; }
+inline void set_case(const std::string& s) { strncpy(case_buf(), s.c_str(), 4095); case_buf()[4095] = 0; }
+inline void dump_case() { if (case_buf()[0]) { const char* p = "CURRENT-CASE: "; ssize_t r = write(2, p, strlen(p)); r = write(2, case_buf(), strlen(case_buf())); r = write(2, "\n", 1); (void)r; } }
+
 inline std::string fmt(const char* f, ...) { char b[512]; va_list ap; va_start(ap, f); vsnprintf(b, sizeof b, f, ap); va_end(ap); return b; }
 
 }  // namespace vf
+
+extern "C" __attribute__((weak, used)) void __asan_on_error() { vf::dump_case(); }
+#include <signal.h>
+namespace vf {
+inline void crash_sig_handler(int sig) { dump_case(); signal(sig, SIG_DFL); raise(sig); }
+inline void install_crash_reporter() { signal(SIGSEGV, crash_sig_handler); signal(SIGABRT, crash_sig_handler); signal(SIGBUS, crash_sig_handler); signal(SIGFPE, crash_sig_handler); signal(SIGILL, crash_sig_handler); }
+}
